@@ -1054,7 +1054,7 @@ fn mode_panic_storm(r: &mut Runner) {
 /// period: the call watchdog decides (the dropping thread found waiting sample after sample, or burning CPU, inside drop).
 /// Afterwards everything accepted is still handed over and the sink is released.
 fn mode_slow_drop(r: &mut Runner) {
-    for (cap, n, blocked_for_good) in [(None, 160usize, false), (Some(200usize), 160, false), (None, 12, true), (Some(16), 12, true)] {
+    for (cap, n, blocked_for_good) in [(None, 400usize, false), (Some(512usize), 400, false), (None, 12, true), (Some(16), 12, true)] {
         let sh = Shared::new(true);
         set_current(Some(sh.clone()));
         let mut b = QueuingMetricSink::builder();
